@@ -215,6 +215,22 @@ func urls() []*url.URL {
 			out = append(out, u)
 		}
 	}
+	// label / issuer-parameter relations and parameter forms
+	for _, ty := range []string{"totp", "hotp", "TOTP", "xotp", ""} {
+		for _, label := range []string{"", "x", "x:", ":y", "x:y", "x:y:z", "x%3Ay", "Acme", "Acme:", "%41cme", "a%2Fb:c", "%zz"} {
+			for _, iss := range []string{"\x00absent", "", "x", "y", "Acme", "Acme:", "x:y", "Acm", "Acmee"} {
+				for _, rest := range []string{"secret=A", "", "secret=A&digits=8&period=60&algorithm=SHA256", "digits=&period=&algorithm=", "secret=%zz"} {
+					q := rest
+					if iss != "\x00absent" {
+						q = "issuer=" + url.QueryEscape(iss) + "&" + rest
+					}
+					if u, err := url.Parse("otpauth://" + ty + "/" + label + "?" + q); err == nil {
+						out = append(out, u)
+					}
+				}
+			}
+		}
+	}
 	out = append(out, &url.URL{Scheme: "otpauth", Host: "totp", Path: "no-leading-slash:x"}, &url.URL{Scheme: "otpauth", Host: "totp", Path: "/a:b", RawQuery: "%zz=%zz&digits=;;;"}, &url.URL{Scheme: "otpauth", Host: "hotp", Opaque: "x", Path: ":"}, &url.URL{Scheme: "otpauth", Host: "totp", Path: "/:", RawQuery: "period=007"})
 	return out
 }
